@@ -67,6 +67,7 @@ def accessorCalls : List AccCall := [
   ⟨"convertObject", "Shape", "core.StructSchema", "assert", true⟩,
   ⟨"convertObjectFromShape", "Catchall", "core.ZodSchema", "assert", false⟩,
   ⟨"convertObjectFromShape", "Internals", "*core.ZodTypeInternals", "assert", false⟩,
+  ⟨"convertObjectFromShape", "IsFieldOptional", "bool", "assert", false⟩,
   ⟨"convertRecord", "IsLoose", "bool", "assert", false⟩,
   ⟨"convertRecord", "KeyType", "any", "assert", false⟩,
   ⟨"convertRecord", "ValueType", "any", "assert", false⟩,
